@@ -178,8 +178,9 @@ abbrev AggOut := List (String × List Agg)
 def fileAggregates (env : Env) (gm : Matcher) (cfg : Cfg) (p : Params) (f : File) : AggOut :=
   ((rulesToRun gm cfg p f.name).filterMap fun r =>
       if r ∈ env.builtin && env.hasAggregate r then
-        let es := env.aggregate r f
-        if es.isEmpty then none else some (key r, es)     -- a partial-set key only exists with an entry
+        some (key r, env.aggregate r f)                   -- `[]` stands for the marker `{{}}` (also for built-in rules
+                                                          -- since the repair "register built-in aggregate rules that
+                                                          -- aggregated nothing")
       else none)
   ++ (env.custom.filterMap fun r =>
       if env.hasAggregate r && !ignoredRule cfg p r && !excluded gm cfg p r f.name then
